@@ -35,11 +35,11 @@ int __lsan_do_recoverable_leak_check(void);
 }
 
 struct Msg { int dir; int kind; std::string payload; std::vector<int> frags; int corrupt; int cseed; };
-struct Case { int level; std::string offer; std::vector<Msg> msgs; };
+struct Case { int level; std::string offer; std::vector<Msg> msgs; int hs_defect = 0; }; // hs_defect != 0: the upgrade fails after the extension offer was read
 
 static js::Value case_json(const Case &c)
 {
-	js::Value o = js::Value::obj(); o.set("level", js::Value::num(c.level)); o.set("offer", js::Value::str(c.offer));
+	js::Value o = js::Value::obj(); o.set("level", js::Value::num(c.level)); o.set("offer", js::Value::str(c.offer)); if (c.hs_defect) o.set("hs_defect", js::Value::num(c.hs_defect));
 	js::Value ms = js::Value::arr();
 	for (auto &m : c.msgs) { js::Value e = js::Value::obj(); e.set("dir", js::Value::num(m.dir)); e.set("kind", js::Value::num(m.kind)); e.set("payload_hex", js::Value::str(scen::tohex(m.payload)));
 		js::Value f = js::Value::arr(); for (int x : m.frags) f.push(js::Value::num(x)); e.set("frags", f); e.set("corrupt", js::Value::num(m.corrupt)); e.set("cseed", js::Value::num(m.cseed)); ms.push(e); }
@@ -49,7 +49,7 @@ static js::Value case_json(const Case &c)
 static bool case_from(const js::Value &v, Case &c)
 {
 	if (!v.is_obj() || !v.get("msgs")) return false;
-	c.level = scen::geti(v, "level", 1); c.offer = v.get("offer") ? v.get("offer")->s : "";
+	c.level = scen::geti(v, "level", 1); c.offer = v.get("offer") ? v.get("offer")->s : ""; c.hs_defect = scen::geti(v, "hs_defect", 0);
 	for (auto &e : v.get("msgs")->a) { Msg m; m.dir = scen::geti(e, "dir"); m.kind = scen::geti(e, "kind", 1); m.payload = scen::fromhex(e.get("payload_hex")->s); for (auto &x : e.get("frags")->a) m.frags.push_back((int)x.d); m.corrupt = scen::geti(e, "corrupt"); m.cseed = scen::geti(e, "cseed"); c.msgs.push_back(m); }
 	return true;
 }
@@ -119,6 +119,18 @@ static std::string run_case_inproc(const Case &c, bool *nontrivial)
 	std::string hs = "GET / HTTP/1.1\r\nHost: h\r\nUpgrade: websocket\r\nConnection: Upgrade\r\nSec-WebSocket-Key: dGhlIHNhbXBsZSBub25jZQ==\r\nSec-WebSocket-Version: 13\r\n";
 	if (!c.offer.empty()) hs += "Sec-WebSocket-Extensions: " + c.offer + "\r\n";
 	hs += "\r\n";
+	if (c.hs_defect) {
+		// the offer is read (and possibly accepted) first, then the exchange turns out not to be a valid upgrade, or simply ends
+		hs = "GET / HTTP/1.1\r\nHost: h\r\n";
+		if (!c.offer.empty()) hs += "Sec-WebSocket-Extensions: " + c.offer + "\r\n";
+		switch (c.hs_defect % 5) {
+		case 0: hs += "Upgrade: websocket\r\nConnection: Upgrade\r\nSec-WebSocket-Version: 13\r\n\r\n"; break;                                             // no key
+		case 1: hs += "Upgrade: websocket\r\nConnection: Upgrade\r\nSec-WebSocket-Key: dGhlIHNhbXBsZSBub25jZQ==\r\nSec-WebSocket-Version: 12\r\n\r\n"; break; // wrong version
+		case 2: hs += "Connection: Upgrade\r\nSec-WebSocket-Key: dGhlIHNhbXBsZSBub25jZQ==\r\nSec-WebSocket-Version: 13\r\n\r\n"; break;                        // no Upgrade header
+		case 3: hs += "Upgrade: websocket\r\nConnection: Upgrade\r\nbroken header line\r\n\r\n"; break;                                                        // malformed later line
+		default: hs += "Upgrade: websocket\r\nConnection: Upgr"; break;                                                                                            // the client goes away half-way
+		}
+	}
 	c19_feed(x, (const uint8_t *)hs.data(), hs.size());
 	uint8_t *o; size_t on = c19_out(x, &o);
 	std::string out((const char *)o, on);
@@ -129,9 +141,12 @@ static std::string run_case_inproc(const Case &c, bool *nontrivial)
 		// a refusal of the whole upgrade is not a negotiation answer; nothing more to check
 		c19_free(x);
 		if (c19_accounted() != 0) return "memory accounted after a refused upgrade";
+		if (__lsan_do_recoverable_leak_check()) return "memory leaked after a refused upgrade (LeakSanitizer)";
+		if (c.hs_defect && nontrivial && !c.offer.empty()) *nontrivial = true;
 		return "";
 	}
 	std::string why;
+	if (c.hs_defect) { c19_free(x); return "101 for an exchange that is not a valid upgrade"; }
 	if (!negotiation_ok(c.offer, head.header("Sec-WebSocket-Extensions"), p, why)) { c19_free(x); return "negotiation: " + why; }
 	if ((bool)c19_accepted(x) != p.accepted) { c19_free(x); return "endpoint's internal 'accepted' state disagrees with its response header"; }
 	c19_out_clear(x);
@@ -322,6 +337,7 @@ int main(int argc, char **argv)
 			if (budget::over()) { budget::skipped()++; return; }
 		Case c; c.level = *rc::gen::resize(100, rc::gen::element<int>(1, 2, 3, 0));
 		c.offer = *offer; c.msgs = *rc::gen::container<std::vector<Msg>>(msg);
+		c.hs_defect = *rc::gen::weightedElement<int>({{7, 0}, {1, 5}, {1, 1}, {1, 2}, {1, 3}, {1, 4}});
 		Result r = run_forked(c);
 		evaluations++;
 		labels[std::string("level") + std::to_string(c.level)]++;
